@@ -102,6 +102,17 @@ pub struct Traf {
     /// bytes of filler placed in the mdat before this run's data (data_offset skips them)
     pub lead: u8,
     pub samples: Vec<Sample>,
+    /// false: the traf has no trun at all (tfhd carries duration-is-empty); it contributes no samples
+    #[serde(default = "yes")]
+    pub has_trun: bool,
+    /// false: no per-sample sizes in the trun (sizes come from the tfhd/trex default; outside C09's
+    /// domain, used for robustness inputs)
+    #[serde(default = "yes")]
+    pub trun_size: bool,
+}
+
+fn yes() -> bool {
+    true
 }
 
 #[derive(Clone, Debug, Serialize, Deserialize, PartialEq, Eq)]
@@ -490,16 +501,22 @@ fn frag_nodes(m: &Movie, fi: usize, pl: &Placement, first_index: &mut [u32]) -> 
     // mdat payload: for each traf: lead filler + samples
     let mut payload: Vec<u8> = Vec::new();
     let mut starts: Vec<u64> = Vec::new();
+    // running sample index per track inside this fragment (a track may have several trafs)
+    let mut local_index: Vec<u32> = first_index.to_vec();
     for tr in &f.trafs {
         for g in 0..tr.lead {
             payload.push(0xB0 | (g & 0xf));
         }
         starts.push(payload.len() as u64);
+        if !tr.has_trun {
+            continue;
+        }
         let t = &m.tracks[tr.track];
-        let k0 = first_index[tr.track];
+        let k0 = local_index[tr.track];
         for (j, s) in tr.samples.iter().enumerate() {
             payload.extend(sample_bytes(t.id, k0 + j as u32, s.size));
         }
+        local_index[tr.track] += tr.samples.len() as u32;
     }
     let mut kids = vec![Node::leaf("mfhd", enc_mfhd(0, 0, f.seq))];
     for (i, tr) in f.trafs.iter().enumerate() {
@@ -521,6 +538,9 @@ fn frag_nodes(m: &Movie, fi: usize, pl: &Placement, first_index: &mut [u32]) -> 
             }
             BaseMode::Neither => moof_pos,
         };
+        if !tr.has_trun {
+            flags |= TFHD_EMPTY;
+        }
         if tr.tfhd_sdi.is_some() {
             flags |= TFHD_SDI;
         }
@@ -538,7 +558,11 @@ fn frag_nodes(m: &Movie, fi: usize, pl: &Placement, first_index: &mut [u32]) -> 
         if let Some((v, time)) = tr.tfdt {
             tk.push(Node::leaf("tfdt", enc_tfdt(v, 0, time)));
         }
-        let mut tf = TRUN_OFFSET | TRUN_SIZE;
+        if !tr.has_trun {
+            kids.push(Node::container("traf", tk));
+            continue;
+        }
+        let mut tf = TRUN_OFFSET | if tr.trun_size { TRUN_SIZE } else { 0 };
         if tr.trun_dur {
             tf |= TRUN_DUR;
         }
@@ -866,6 +890,9 @@ pub fn build(m: &Movie) -> Built {
                 let mut rel = 0u64;
                 for tr in &f.trafs {
                     rel += tr.lead as u64;
+                    if !tr.has_trun {
+                        continue;
+                    }
                     if tr.track == ti {
                         let mut off = mdat_payload + rel;
                         let mut start = tr.tfdt.map(|x| x.1).unwrap_or(0);
